@@ -28,19 +28,20 @@ if [ "$PROP" = "C20" ]; then
   exit $rc
 fi
 
-# C05 also covers the optional serde feature (deserializing is an operation like any other):
-# that part runs in the separate serde-enabled crate.
+# C05 and C06 also cover the optional serde feature (deserializing is an operation like any
+# other: it keeps the standing invariants, and it takes nothing from the allocator): that part
+# runs in the separate serde-enabled crate.
 serde_part() { # mode [file]
-  local HS="$VERIF_DIR/harness-serde" L="$VERIF_DIR/work/build-C05-serde.log"
+  local HS="$VERIF_DIR/harness-serde" L="$VERIF_DIR/work/build-$PROP-serde.log"
   ( cd "$HS" && flock "$VERIF_DIR/work/.build20.lock" cargo build --release ) >"$L" 2>&1 || { echo "INCONCLUSIVE: serdechk does not build against /repo's current tree (see $L)"; tail -n 25 "$L"; exit 2; }
   ( cd "$HS" && flock "$VERIF_DIR/work/.build20.lock" cargo build ) >>"$L" 2>&1 || { echo "INCONCLUSIVE: serdechk (dev) does not build against /repo's current tree (see $L)"; tail -n 25 "$L"; exit 2; }
   local rc
   if [ "$1" = "--replay" ]; then
-    timeout 300 "$HS/target/release/serdechk" C05 --replay "$2"; rc=$?
-    [ $rc -eq 0 ] && { timeout 300 "$HS/target/debug/serdechk" C05 --replay "$2"; rc=$?; }
+    timeout 300 "$HS/target/release/serdechk" "$PROP" --replay "$2"; rc=$?
+    [ $rc -eq 0 ] && { timeout 300 "$HS/target/debug/serdechk" "$PROP" --replay "$2"; rc=$?; }
   else
-    VERIF_EVIDENCE_SUFFIX=.dev VERIF_EVIDENCE_DIR="$VERIF_DIR/work" timeout 3600 "$HS/target/debug/serdechk" C05 "$1"; rc=$?
-    [ $rc -eq 0 ] && { VERIF_EVIDENCE_DIR="$VERIF_DIR/work" VERIF_AUX_EVIDENCE="$VERIF_DIR/work/C05.serde.dev.json" timeout 3600 "$HS/target/release/serdechk" C05 "$1"; rc=$?; }
+    VERIF_EVIDENCE_SUFFIX=.dev VERIF_EVIDENCE_DIR="$VERIF_DIR/work" timeout 3600 "$HS/target/debug/serdechk" "$PROP" "$1"; rc=$?
+    [ $rc -eq 0 ] && { VERIF_EVIDENCE_DIR="$VERIF_DIR/work" VERIF_AUX_EVIDENCE="$VERIF_DIR/work/$PROP.serde.dev.json" timeout 3600 "$HS/target/release/serdechk" "$PROP" "$1"; rc=$?; }
   fi
   if [ $rc -eq 124 ]; then echo "INCONCLUSIVE: watchdog expired (serde part)"; exit 2; fi
   if [ $rc -gt 2 ]; then echo "INCONCLUSIVE: serdechk ended abnormally (status $rc)"; exit 2; fi
@@ -49,7 +50,7 @@ serde_part() { # mode [file]
 
 build --release
 REL="$H/target/release/runner"
-if [ "$MODE" = "--replay" ] && [ "$PROP" = "C05" ] && head -n 1 "$ARG" 2>/dev/null | grep -q "^serdecase"; then
+if [ "$MODE" = "--replay" ] && { [ "$PROP" = "C05" ] || [ "$PROP" = "C06" ]; } && head -n 1 "$ARG" 2>/dev/null | grep -q "^serdecase"; then
   serde_part --replay "$ARG"; exit $?
 fi
 if [ "$MODE" = "--replay" ]; then
@@ -79,11 +80,11 @@ run() { # binary, extra env...
 }
 
 AUX=""
-if [ "$PROP" = "C05" ]; then
-  rm -f "$VERIF_DIR/work/C05.serde.json"
+if [ "$PROP" = "C05" ] || [ "$PROP" = "C06" ]; then
+  rm -f "$VERIF_DIR/work/$PROP.serde.json"
   serde_part "$MODE"; rc=$?
   [ $rc -ne 0 ] && exit $rc
-  AUX="$VERIF_DIR/work/C05.serde.json"
+  AUX="$VERIF_DIR/work/$PROP.serde.json"
 fi
 if [ $DEV -eq 1 ]; then
   build ""
